@@ -385,6 +385,25 @@ def run(ctx):
             rf_.ok(inst, func=af.name, loc=af.mod.src, facts={'paths': np_})
     rf_.require_min(3)
 
+    # ---------------- R01g sizes read from a header: 0 is a size
+    rg_ = ctx.rule('R01g', 'prepare_fragments_for_decode refuses header sizes only when they are negative: an empty object (sizes 0) is decoded',
+                   'encode accepts a 0-byte object and seals headers with size 0; refusing size 0 on the decode side turns every empty object into a bad-header error')
+    from ..oblig import simulate as _sim1
+    pf = P.fn('prepare_fragments_for_decode')
+    szc = [i for i in pf.insts() if i.op == 'call' and i.callee in ('@get_orig_data_size', '@get_fragment_payload_size') and i.res]
+    for c in szc:
+        def goes_on(v):
+            return any(kind == 'reexec' or (kind == 'ret' and val is not None and val >= 0) or kind == 'limit' for kind, val, tr in _sim1(pf, c, v))
+        inst = f'prepare_fragments_for_decode: {c.callee[1:]} == 0 at line {c.line} is accepted'
+        if not goes_on(1):
+            rg_.undecided(inst, loc=c.loc, msg='no continuing path found for a positive size either')
+        elif goes_on(0):
+            rg_.ok(inst, func=pf.name, loc=c.loc)
+        else:
+            rg_.fail(inst, func=pf.name, sig=f'{c.callee[1:]} == 0 refused', loc=c.loc,
+                     msg=f'a header whose {c.callee[1:]} is 0 (fragment of an empty object) is refused: every path from this value ends in an error return')
+    rg_.require_min(2)
+
     rk = ctx.rule('R01d', 'coding kernels process every byte of the block (XOR kernel, RS region_xor / region_multiply)',
                   'payload sizes are multiples of 2 or 4 bytes only: a kernel tail for another width leaves the last bytes of parity / rebuilt data stale')
     from .. import cover
